@@ -8,7 +8,10 @@ THEOREMS = ["C03.recCheck_iff", "C03.accepted_no_cycle", "C03.user_cycle_iff", "
             "C03.rejected_user_cyclic", "C03.ctor_recursive_iff", "C03.stack_bound", "C03.stack_bound_parse",
             "C03.run_terminates", "C03.parse_terminates", "C03.parse_total", "C03.templates_total", "C03.parse_from_total"]
 RULE = ("one case = one generated grammar (unbiased / mostly non-left-recursive / shaped / LL(1)-ish / hidden-recursion / DFS-bookkeeping "
-        "generators, names permuted; 15 % grammars with ProdSequence / ListProds / MapProds keys incl. nullable members and items; "
+        "generators, names permuted; 15 % grammars with ProdSequence / ListProds / MapProds keys incl. nullable members and items and recursion THROUGH the "
+        "templates in both directions - items / members that start with the container again (a cycle unless brackets consume a "
+        "token first) and right recursion X -> (container, X) | () behind bracketed and bracket-less containers; the reference "
+        "left-recursion test runs on the expanded productions; "
         "keys with an empty list of alternatives in recursive and non-recursive grammars; long inputs; two threads on one parser "
         "object for every 40th accepted grammar), constructed with smart_factorization True and False, each followed by every token "
         "string up to the tier's length plus sampled sentences; the real constructor and parse run under a line-event "
@@ -20,7 +23,12 @@ TRUSTED = ["re (lexemes are found by the harness with the tokenizer's own patter
 ASSUMPTIONS = ["'GrammarIsRecursive is raised exactly when ...' is a theorem at the level of the recursion check and of the user's "
                "dictionary (C03.recCheck_iff + C03.user_cycle_iff: cycle of the factorised dictionary <=> cycle of the user's "
                "productions w.r.t. their least nullable set) and of the constructor (C03.ctor_recursive_iff, with the success of "
-               "the earlier stages as explicit hypotheses: their failures are other exception classes)"]
+               "the earlier stages as explicit hypotheses: their failures are other exception classes)",
+               "an alternative given as None is the empty alternative and AnyTokenExcept(*names) is the list of its one-token "
+               "alternatives when the model sees them (protocol `!` / field AX=); the harness expands AnyTokenExcept itself: the "
+               "SET of tokens is the reference's (token groups - synonym sources + synonym and keyword targets), only the order "
+               "among them (iteration order of a Python set) is read from the code; the parser is built from the original "
+               "None / AnyTokenExcept objects; terminal names containing `__` are not generated"]
 BUDGET = 1000000          # line events of the constructor
 PARSE_BUDGET = 30000000    # backstop only; the observable for a run-away parse is the stack bound
 
